@@ -181,9 +181,9 @@ def nontrivial_key(c, st):
     return None
 
 
-def explore(prop, tier, rep, cases, precomputed=None):
+def explore(prop, tier, rep, cases, precomputed=None, tie_cats=None):
     """gates 2 and 3 on a list of history cases"""
-    oracle_cats, tie_cats = ORACLE[prop], TIE[prop]
+    oracle_cats, tie_cats = ORACLE[prop], (tie_cats if tie_cats is not None else TIE[prop])
     results = precomputed if precomputed is not None else hist.run_batch(cases)
     agg = {}
     n_oracle = n_tie = 0
@@ -898,7 +898,8 @@ def fault_batch(prop, tier, rep, ds, per_family, n_random, salt):
         rep.count('faults_injected')
         j['steps'][j['fault_step']][5].update(fault_plan(f))
     specs = model.run_cases(jobs)
-    explore(prop, tier, rep, jobs, precomputed=list(zip(jobs, reals, specs)))
+    # (the correspondence slice under faults is that of C14: see TIE['C14'])
+    explore(prop, tier, rep, jobs, precomputed=list(zip(jobs, reals, specs)), tie_cats=TIE['C14'])
 
 
 def check_C14(tier):
